@@ -141,3 +141,9 @@ def generate(ctx, kind, n, extra=()):
     avoid = ",".join(vlib.avoid_tags())
     ctx.run_vh("gen", kind, n, ctx.seed, out, "-avoid", avoid, *extra)
     return read_ndjson(out)
+
+
+def scale_cases(ctx, prop):
+    """spec/FamScale.tla: the cases beyond the small scope that belong to one property (ids scale/<property>/...)"""
+    fam = ctx.tlc_family("FamScale", constants={"Tier": '"%s"' % ctx.tier}, timeout=3000)
+    return [c for c in fam if c["id"].startswith("scale/%s/" % prop)]
